@@ -333,7 +333,21 @@ def import_tables():
             got[s.name] = ast.unparse(rets[0].value)
     if got != expect:
         raise TranslatorError(f"_get_qiskit_gates changed: {got}")
-    return {"predefined": predefined, "qiskit": qiskit, "rows": rows, "user_gates": sorted(expect)}
+    # _GATE_SIGNATURES (arity table of the built-in and qelib1 gates)
+    sigs = None
+    for n in qasm.body:
+        if isinstance(n, ast.Assign) and len(n.targets) == 1 and isinstance(n.targets[0], ast.Name) \
+                and n.targets[0].id == "_GATE_SIGNATURES":
+            if not isinstance(n.value, ast.Dict):
+                raise TranslatorError("_GATE_SIGNATURES is not a dict literal")
+            sigs = []
+            for k, v in zip(n.value.keys, n.value.values):
+                if not (isinstance(v, ast.Tuple) and len(v.elts) == 2 and
+                        all(isinstance(e, ast.Constant) and isinstance(e.value, int) for e in v.elts)):
+                    raise TranslatorError("_GATE_SIGNATURES: value is not a pair of ints")
+                sigs.append((_const_str(k, "signature key"), v.elts[0].value, v.elts[1].value))
+    return {"predefined": predefined, "qiskit": qiskit, "rows": rows, "user_gates": sorted(expect),
+            "sigs": sigs}
 
 
 # ------------------------------------------------------------------------------------------
@@ -383,6 +397,15 @@ def render():
     A(",\n".join(f"  ({lean_str(q)}, {lean_str(l)}, {t}, {'.none' if c == 'none' else c}, {'true' if a else 'false'})"
                  for q, l, t, c, a in i["rows"]))
     A("]")
+    A("")
+    A("/-- `_GATE_SIGNATURES`: name, number of parameters, number of qubit arguments; `none` = the")
+    A("table does not exist (no arity check in the importer) -/")
+    if i["sigs"] is None:
+        A("def gateSignatures : Option (List (Str × Nat × Nat)) := none")
+    else:
+        A("def gateSignatures : Option (List (Str × Nat × Nat)) := some [")
+        A(",\n".join(f"  ({lean_str(n)}, {a}, {b})" for n, a, b in i["sigs"]))
+        A("]")
     A("")
     A("/-- user gates installed by `_get_qiskit_gates` (bodies recognised by the translator) -/")
     A("def userGates : List Str := " + lean_list([lean_str(x) for x in i["user_gates"]]))
